@@ -1032,7 +1032,15 @@ class RZILTransformer(Transformer):
 
     def block_item(self, items):
         self.ext.set_token_meta_data("block_item")
-        return items[0]
+        item = items[0]
+        if (
+            isinstance(item, Pure)
+            and item.get_name() in self.il_ops_holder.hybrid_effect_dict
+        ):
+            # An expression statement whose value is not used (i++; f(x);).
+            # Its side effect takes place here, between the neighbouring statements.
+            return self.il_ops_holder.hybrid_effect_dict.pop(item.get_name())
+        return item
 
     def chk_hybrid_dep(
         self, effect: Effect, order: HybridSeqOrder = HybridSeqOrder.HYB_THEN_SEQ
